@@ -306,7 +306,13 @@ def _color_validator(color_input, allow_None=True, parent_name="", _input_types=
 def validate_property_class(val, name, class_, parent):
     """validator for sub property"""
     if isinstance(val, dict):
-        val = class_(**val)
+        current = getattr(parent, f"_{name}", None)
+        if isinstance(current, class_):
+            # a dictionary updates the existing properties, like `update` does: properties
+            # that it does not mention keep their values (`None` resets all of them)
+            val = current.update(val)
+        else:
+            val = class_(**val)
     elif val is None:
         val = class_()
     if not isinstance(val, class_):
